@@ -29,13 +29,13 @@ func (b gByte) String() string {
 }
 
 type gval struct {
-	kind  int // 0 unknown, 1 const, 2 comp, 3 slice, 4 ptr (to a byte of a slice), 5 len-of
-	k     int64
-	comp  []gByte
-	root  string
-	off   int64
-	n     int64 // known length of a slice (-1 unknown)
-	why   string
+	kind int // 0 unknown, 1 const, 2 comp, 3 slice, 4 ptr (to a byte of a slice), 5 len-of
+	k    int64
+	comp []gByte
+	root string
+	off  int64
+	n    int64 // known length of a slice (-1 unknown)
+	why  string
 }
 
 const (
@@ -48,11 +48,11 @@ const (
 )
 
 type gSummary struct {
-	comp     []gByte // result composition on the main path(s)
-	ok       bool
-	why      string   // why no summary exists
-	guards   []string // input conditions under which a constant is returned instead (len<6, nil)
-	lenDep   bool     // the result depends on the input length beyond the guards
+	comp   []gByte // result composition on the main path(s)
+	ok     bool
+	why    string   // why no summary exists
+	guards []string // input conditions under which a constant is returned instead (len<6, nil)
+	lenDep bool     // the result depends on the input length beyond the guards
 }
 
 type gEval struct {
